@@ -12,10 +12,10 @@ ENGINES = [
      "kind_free_text": "check runner: subprocess shards, monitor counters, three-valued verdicts, "
                        "mechanism-keyed known findings, evidence and replay files"},
     {"name": "wf+ctl", "path": "vlib/wf.py vlib/wf_tasks.py vlib/ctl.py vlib/engine.py vlib/sched_explore.py",
-     "serves_properties": ["C01", "C05", "C06", "C07", "C08", "C09", "C12", "C26", "C27"],
+     "serves_properties": ["C01", "C05", "C06", "C07", "C08", "C09", "C12", "C20", "C21", "C26", "C27"],
      "kind_free_text": "program generator + set-valued reference interpreter + schedule controller that owns the "
                        "executor and the scheduler event queue (DFS / random / PCT / extreme choosers)"},
-    {"name": "hist", "path": "vlib/hist.py vlib/dbaudit.py", "serves_properties": ["C02", "C23", "C28"],
+    {"name": "hist", "path": "vlib/hist.py vlib/dbaudit.py", "serves_properties": ["C02", "C23", "C28", "C33"],
      "kind_free_text": "editable task family + execution histories with a differential (empty backend) oracle; raw-SQL "
                        "database auditor"},
     {"name": "hist+faults", "path": "vlib/hist.py vlib/faults.py vlib/dbaudit.py", "serves_properties": ["C03", "C22"],
@@ -144,6 +144,19 @@ reg("C07", "wf+ctl", "cross-run comparison of results and recorded call graphs o
 reg("C28", "hist", "dry-run monitor at the executor boundary and inside task bodies, with the real run on a byte copy",
     "For generated backend histories the dry run must submit and invoke nothing; a completed dry run must return the "
     "real run's value and a stopped one must be followed by a real run that invokes a task.", HIST_NOTE)
+reg("C20", "wf+ctl", "database auditor driven by the job tree observed at the job boundary",
+    "After every execution (successful, failed, cached replay) all Job/CallNode/CallEdge/Execution/Value/Subvalue/Tag "
+    "rows are read back: Merkle hashes are recomputed from observed children, edges and parent links mirror the "
+    "observed tree, values deserialise to their keys, tags sit on the intended entities, prov=False jobs leave no rows.",
+    SCHED_NOTE)
+reg("C21", "wf+ctl", "argument/argument_result rows compared with received values and a required/allowed upstream model",
+    "Dataflow programs route uniquely identifiable producer calls into sinks through 13 forms; recorded argument "
+    "values must equal received values (defaults as keywords) and upstream links must satisfy required <= recorded <= "
+    "allowed.", SCHED_NOTE)
+reg("C33", "hist", "set comparison of status-filter results with displayed statuses on generated databases",
+    "Databases with done, cached, failed, CSE-failed, replayed-failure and (by injected process death) running "
+    "jobs; each status filter for jobs and executions must return exactly the rows displayed with that status.",
+    HIST_NOTE)
 
 
 def build():
